@@ -1,5 +1,5 @@
 """C05 — no remote input can crash the proxy: panic-site unreachability in every encodable peer-fed decoder."""
-from specs import fragment, codec
+from specs import fragment, codec, replies
 
 
 def run(ck):
@@ -22,4 +22,5 @@ def run(ck):
     codec.spec_socks_request_reader(ck, 'NoAuth')
     codec.spec_socks_request_reader(ck, 'PasswordAuth')
     codec.spec_socks_response_reader(ck)
+    replies.spec_h11c_connect(ck)
     ck.post_filter = lambda o: not o.label.startswith(('C11/', 'C12/', 'C03/', 'C06/', 'C07/'))
